@@ -1,2 +1,11 @@
 import Heathcliff.Props.C11
-#print axioms HC.C11.placeholder
+#print axioms HC.C11.batchIndexMap_spec
+#print axioms HC.C11.slotExp_injective
+#print axioms HC.C11.batchIndexMap_perm
+#print axioms HC.C11.batchDecode_eval
+#print axioms HC.C11.batch_decode_encode
+#print axioms HC.C11.batch_encode_decode
+#print axioms HC.C11.batch_mul_slots
+#print axioms HC.C11.batch_add_slots
+#print axioms HC.C11.slotExp_rotate
+#print axioms HC.C11.slotExp_swap
